@@ -120,6 +120,20 @@ def halts_extra(ctx):
 
 
 # ---------------------------------------------------------------- C16: falling off a function's end
+# loops whose back edge, break target or implicit return could be thought dead: bodies that never complete, `continue`/`break` hidden in
+# bare nested blocks, if arms, try bodies, handlers and preempt blocks; each function is LAST before another one, so running off its end is visible
+C16_DIRECTED = [
+    'int up(int n) { while (true) { { if (n % 4 != 0) { n += 1; continue; } } return n; } }\nempty boom() { write("BOOM"); }\nempty @is_you(int a, int b) { write(up(a + 4)); write(up(b + 5)); write(up(8)); if (a > 100) { boom(); } }\n',
+    'int f(int n) { for (;;) { { { if (n < 10) { n += 3; continue; } } } if (n > 20) { { break; } } return n; } return 0 - n; }\nempty tail() { write("TAIL"); }\nempty @is_you(int a, int b) { write(f(a)); write(f(b + 30)); write(f(12)); if (a > 100) { tail(); } }\n',
+    'int g(int n) { while (true) { n += 1; { if (n < 5) { continue; } } { if (n > 7) { break; } } } return n; }\nint h(int n) { for (int i = 0; ; i += 1) { { if (i < n) { continue; } } return i; } }\nempty z() { write("Z"); }\n'
+    'empty @is_you(int a, int b) { write(g(a)); write(h(b + 2)); write(g(9)); if (a > 100) { z(); } }\n',
+    'empty !dd(int c) { !truth_is_defeat(c > 2); }\nint @w(int n) { while (true) { try { !dd(n); return n; } undo { { n -= 1; continue; } } } }\nint @v(int n) { while (true) { { try { !dd(n); { break; } } stop { n -= 2; } } } return n; }\nempty q() { write("Q"); }\n'
+    'empty @is_you(int a, int b) { write(@w(a + 3)); write(@v(b + 4)); if (a > 100) { q(); } }\n',
+    'empty p(int n) { while (n > 0) { { n -= 1; { if (n == 2) { continue; } } } write(n); } }\nempty r(int n) { for (int i = 0; i < n; i += 1) { { { continue; } } } write("r"); }\nempty last() { write("L"); }\n'
+    'empty @is_you(int a, int b) { p(a + 3); r(b); if (a > 100) { last(); } }\n',
+]
+
+
 def c16_fallthrough(ctx):
     """Committed pc trace: entering a function's first instruction other than by a taken jump.
     Watched: every func_* label; the state recorded just before must be a `j`/goto, which we
@@ -128,6 +142,7 @@ def c16_fallthrough(ctx):
     rng = random.Random(ctx.seed + 16)
     n = 60 if ctx.tier == 'quick' else 400
     units = program_units(rng, n, ALL + ['tt'], [2, 4], cfgs_per=1, seed_base=ctx.seed + 1600)
+    units += [(src, [Cfg(('1', '2'), 2, 300, False)]) for src in C16_DIRECTED]
     bad = 0
     total = 0
     for src, cfgs in units:
@@ -174,6 +189,15 @@ ALIAS_DIRECTED = [
     'empty @is_you(int a, int b) { write(tally(3)); write(\' \'); write(tally(b + 1)); write(\' \'); for (int i = 0; i < 3; i += 1) { write(bump([0])); write(bump([7, 8])); write(bb([\'p\', \'q\'])); write(flip([false, true])); '
     'string[] ss = ["a", "b"]; write(ss[i % 2]); ss[0] = "z"; ss[1] = ss[0]; } write(depth(a + 2)); write(\' \');\n'
     '  for (int k = 0; k < 2; k += 1) { int[] v = [1, 2, 3]; byte[] w = [\'x\', \'y\']; bool[] m = [true, false, true, false, true, false, true, false, true]; write(v[k]); write(w[k]); write(m[k]); write(m[8]); v[k] = 9; v[k + 1] = 8; w[k] = \'#\'; m[k] = not m[k]; m[8] = false; } }\n',
+    # constant arrays that look alike once emitted: bool arrays with equal packed bytes but different lengths, equal values at different widths
+    'const bool[] s3 = [true, false, true];\nconst bool[] s6 = [true, false, true, false, false, false];\nint count(const bool[] m) { int n = 0; for (int i = 0; i < m.length; i += 1) { if (m[i]) { n += 1; } } return n * 10 + m.length; }\n'
+    'empty @is_you(int a, int b) { const bool[] l2 = [true, false]; const bool[] l5 = [true, false, false, false, false]; const bool[] l8 = [true, false, false, false, false, false, false, false]; const bool[] l9 = [true, false, false, false, false, false, false, false, false];\n'
+    '  write(s3.length); write(s6.length); write(l2.length); write(l5.length); write(l8.length); write(l9.length); write(count(s3)); write(count(s6)); write(count(l5)); write(count(l9)); write(l5[4]); write(s6[5]); write(l9[8]);\n'
+    '  const int[] ci = [72, 105, 33]; const byte[] cb = [72, 105, 33]; const bool[] c1 = [true]; const byte[] c2 = [1]; const int[] c3 = [1]; write(cb); write(ci[1]); write(c1[0]); write(c2[0] is int); write(c3[0]); write(s6[a + 2] or l5[b + 1]); }\n',
+    # a global that is only ever assigned in a for-loop increment clause / a while condition helper, used as an index next to a call that runs that loop
+    'int pos = 0;\nint cur = 0;\nbyte adv(int n) { for (int k = 0; k < n; pos += 1) { k += 1; } return \'x\'; }\nint step(int n) { for (int k = 0; k < n; cur += 2) { k += 1; } return cur; }\n'
+    'empty @is_you(int a, int b) { byte[] buf = [\'.\', \'.\', \'.\', \'.\', \'.\', \'.\', \'.\', \'.\']; byte[] nb = [\'-\', \'-\', \'-\', \'-\']; int[] iv = [0, 0, 0, 0, 0, 0, 0, 0];\n'
+    '  buf[pos] = adv(a + 1); write(buf); write(nb); write(pos); buf[pos] = adv(b); write(buf); iv[cur] = step(a); write(iv[0]); write(iv[cur]); write(cur); write(pos + adv(1) + pos); }\n',
     'string gs = "hello";\nint chg() { gs = "HELLO WORLD"; return 1; }\nbyte[] gb = [\'x\', \'y\', \'z\'];\nint chb() { gb[1] = \'!\'; return 1; }\n'
     'empty @is_you(int a, int b) { write(gs[chg()]); write(gs.length + chg()); write(gb[chb()]); write(gb[a] is int + chb()); write(gs); write(gb); }\n',
 ]
